@@ -452,7 +452,8 @@ SPEC = Property(
           "<=10 (quick) / <=12 (thorough) bytes into fragments and random fragmentations <=1200 bytes, status 0..6, wrong tid / missing "
           "continuation flag / corrupted ciphertext in a generated fragment; CoAP: every outcome vector over {ok0, okn, err, err+body, "
           "wrong tid, wrong control, control 0} for batches of 1..4 and random 1..6. Non-trivial: >=2 fragments, or a batch with a "
-          "failed item followed by another item."),
+          "failed item followed by another item. CoAP first contact: services of 1..40 characteristics (some write-only, some failing) with distinct values; "
+          "BLE: requests following a request cancelled at each point of its exchange."),
     layers=[
         Layer("ble-encode-grid", run_encode_grid, enumerate=enum_encode_grid, exhaustive=True,
               space="fragment sizes 8..64 x body lengths 0..200 = 11,457 cells", min_nontrivial=50),
